@@ -636,7 +636,7 @@ int main(int argc, char **argv)
     vproxy *px = new vproxy(2);
     px->x[0] = cvm::rvector(0, 0, 0.75);
     px->x[1] = cvm::rvector(0, 0, 0);
-    if (px->config(conf) != 0) { fprintf(stderr, "HARNESS-ERROR: configuration rejected: %s\n", px->errtxt.c_str()); exit(2); }
+    if (px->config(conf) != 0) { fprintf(stderr, "HARNESS-ERROR: configuration rejected: %s\n", px->errtxt.c_str()); exit(3); }
     for (auto n : {"n0", "p0", "r2"}) if (!px->cv(n)) { fprintf(stderr, "HARNESS-ERROR: colvar %s missing\n", n); exit(2); }
     if (!px->cv("p1")->is_enabled(colvardeps::f_cv_periodic) || px->cv("p1")->period != PERIOD) {
       fprintf(stderr, "HARNESS-ERROR: p1 not periodic as configured\n"); exit(2);
